@@ -76,6 +76,21 @@ func genC10(g *gen, tier string) *Scenario {
 	}
 	closer = append(closer, Op{Kind: "close"})
 	sc.Clients = append(sc.Clients, closer)
+	if g.pct(20) {
+		// a second Close: overlapping the first one (which may be held up at a shard or at the
+		// policy mutex by a slow loader, listener or secondary store), or after it. Finality
+		// counts from the first Close that returns, whichever it is
+		sc.Family += ",two-closes"
+		var c2 []Op
+		if g.pct(60) {
+			c2 = append(c2, Op{Kind: "sleep", Dur: int64(g.rng(0, 1600)) * ms})
+		}
+		c2 = append(c2, Op{Kind: "close"})
+		for n := g.rng(0, 3); n > 0; n-- {
+			c2 = append(c2, pick(g, Op{Kind: "get", Key: g.n(keys)}, Op{Kind: "set", Key: g.n(keys), Cost: 1}, Op{Kind: "close"}))
+		}
+		sc.Clients = append(sc.Clients, c2)
+	}
 	// epilogue: issued by the root after every client has returned, i.e. after Close returned
 	ep := []Op{{Kind: "get", Key: 0}, {Kind: "set", Key: 0, Cost: 1}, {Kind: "get", Key: 0}, {Kind: "del", Key: 1}}
 	if !hybrid {
@@ -89,9 +104,19 @@ func genC10(g *gen, tier string) *Scenario {
 func checkC10(rd *RunData) []Violation {
 	var vs []Violation
 	var closeRec *Rec
+	// the Close that returned first (finality counts from there); if none returned, the first invoked
 	for i := range rd.Recs {
-		if rd.Recs[i].Op.Kind == "close" {
-			closeRec = &rd.Recs[i]
+		r := &rd.Recs[i]
+		if r.Op.Kind != "close" {
+			continue
+		}
+		switch {
+		case closeRec == nil:
+			closeRec = r
+		case closeRec.Open && (!r.Open || r.Inv < closeRec.Inv):
+			closeRec = r
+		case !closeRec.Open && !r.Open && r.Ret < closeRec.Ret:
+			closeRec = r
 		}
 	}
 	phase := func(r Rec) string {
